@@ -118,6 +118,7 @@ type Sched struct {
 	traceOn             bool
 	noUnlockPoints      bool
 	endWithMain         bool
+	reverse             bool
 	User                any
 }
 
@@ -264,9 +265,17 @@ func (s *Sched) dispatch(self *thread) {
 			en = append(en, self)
 			curEnabled = true
 		}
-		for _, t := range s.threads {
-			if t != self && t.enabled(s) {
-				en = append(en, t)
+		if s.reverse {
+			for i := len(s.threads) - 1; i >= 0; i-- {
+				if t := s.threads[i]; t != self && t.enabled(s) {
+					en = append(en, t)
+				}
+			}
+		} else {
+			for _, t := range s.threads {
+				if t != self && t.enabled(s) {
+					en = append(en, t)
+				}
 			}
 		}
 		if len(en) == 0 {
@@ -591,6 +600,7 @@ type RunOpts struct {
 	NoUnlockPoints      bool
 	LoopHorizon         int  // max `for` iterations between two visible operations (0 = 5e6)
 	EndWithMain         bool // the execution ends when the harness body returns (threads of the code under test may run for ever)
+	ReverseOrder        bool // canonical order of the other threads is descending ids: background goroutines started early run last by default
 }
 
 // Run executes body once under the scheduler, replaying prefix and taking choice
@@ -598,7 +608,7 @@ type RunOpts struct {
 func Run(prefix []int, o RunOpts, body func(s *Sched)) *Result {
 	s := &Sched{prefix: prefix, endCh: make(chan struct{}), horizon: o.Horizon, raceOn: o.Race,
 		allowBlockedDaemons: o.AllowBlockedDaemons, traceOn: o.Trace, now: o.StartNS, noUnlockPoints: o.NoUnlockPoints,
-		chans: map[uintptr]*chanModel{}, shadow: map[accKey]*shadowCell{}, endWithMain: o.EndWithMain}
+		chans: map[uintptr]*chanModel{}, shadow: map[accKey]*shadowCell{}, endWithMain: o.EndWithMain, reverse: o.ReverseOrder}
 	if s.horizon == 0 {
 		s.horizon = 200000
 	}
